@@ -239,9 +239,17 @@ class TimeRecurrence:
                 self._repetitions = 1
                 self._duration = None
             elif self._repetitions is not None:
-                self._end_point = (
-                    self._start_point +
-                    self._duration * (self._repetitions - 1))
+                if self._duration.is_exact():
+                    self._end_point = (
+                        self._start_point +
+                        self._duration * (self._repetitions - 1))
+                else:
+                    # Nominal units (months, years) must be added one interval
+                    # at a time, as iteration does - the end-of-month clamping
+                    # means n intervals != 1 interval of n times the length.
+                    self._end_point = self._start_point
+                    for _ in range(self._repetitions - 1):
+                        self._end_point = self._end_point + self._duration
         elif self._start_point is None and self._end_point is not None:
             # Fourth form.
             self._format_number = 4
